@@ -133,6 +133,21 @@ func worldC14(w *World) {
 	for i := range cases {
 		cases[i] = genC14(t, i)
 	}
+	// two navigations to the same path with different queries (the frame of each
+	// must embed its own URL)
+	if n >= 2 && t.Rare(1, 3, "same-path-twins") {
+		p0 := cases[0].Target
+		if i := strings.Index(p0, "?"); i >= 0 {
+			p0 = p0[:i]
+		}
+		cases[0].Target = p0 + "?doc=alice"
+		cases[1].Target = p0 + "?doc=bob&twin=001"
+		for _, c := range cases[:2] {
+			c.Method, c.Accept, c.Status, c.CType, c.CDisp = "GET", "text/html", 200, "text/html", ""
+			c.FetchDst, c.FetchMod, c.Referer = "", "", ""
+		}
+		w.Probe("two_navigations_to_one_path_with_different_queries")
+	}
 	startProxy(w)
 	rb := &rawBackend{}
 	rb.Respond = func(c net.Conn, req *wireMsg, k int) bool {
@@ -141,6 +156,9 @@ func worldC14(w *World) {
 		if len(parts) == 3 {
 			if j := strings.Index(parts[1], "/m"); j >= 0 {
 				fmt.Sscanf(parts[1][j:], "/m%03d", &idx)
+			}
+			if j := strings.Index(parts[1], "twin="); j >= 0 {
+				fmt.Sscanf(parts[1][j:], "twin=%03d", &idx)
 			}
 		}
 		if idx < 0 || idx >= n {
